@@ -170,3 +170,47 @@ def cursorAfterMotion (s : MS) (mk : MK) (savedCol : Option Nat) : Nat :=
   (fun v => if s.excl && s.isNlAt v && v > 0 && !s.isNlAt (v - 1) then v - 1 else v) (moveCursor s mk savedCol)
 
 end Vicut
+
+namespace Vicut
+
+/-- a line that is empty (nothing, or just its terminator): what `}` and `{` stop on -/
+def lineEmpty (gs : List Gr) (n : Nat) : Bool :=
+  match lineBounds gs n with
+  | some (st, en) => st == en || (en - st == 1 && isNlAtGs gs st)
+  | none => true
+
+/-- One `}` / `{` step over line numbers (the inner `loop` of `paragraph_motion`): walk until an empty
+line is met after a non-empty one; at the edge of the buffer stay there, or fail when more steps are
+asked for. -/
+def paraLoop (gs : List Gr) (last : Nat) (fwd : Bool) (stepsLeft : Nat) : Nat → Nat → Bool → Bool → Option Nat
+  | 0, curr, _, _ => some curr
+  | f + 1, curr, didSkip, first =>
+    if !first && (didSkip || !lineEmpty gs curr) && lineEmpty gs curr then some curr
+    else if (fwd && curr == last) || (!fwd && curr == 0) then (if stepsLeft > 0 then none else some curr)
+    else paraLoop gs last fwd stepsLeft f (if fwd then curr + 1 else curr - 1) (didSkip || !lineEmpty gs curr) false
+
+def paraGo (gs : List Gr) (last : Nat) (fwd : Bool) : Nat → Nat → Option Nat
+  | 0, curr => some curr
+  | k + 1, curr =>
+    match paraLoop gs last fwd k (last + 2) curr false true with
+    | none => none
+    | some c => paraGo gs last fwd k c
+
+/-- `}` / `{` as a `MotionKind` (fix 30a6747): the start of the line reached; on the last line going
+forward its last character, which an operator takes. -/
+def evalParagraph (s : MS) (fwd : Bool) (count : Nat) (hasVerb : Bool) : MK :=
+  match paraGo s.gs (lastLineNumber s.gs) fwd count (min (cursorLine s.lb) (lastLineNumber s.gs)) with
+  | none => .null
+  | some curr =>
+    match lineBounds s.gs curr with
+    | none => .null
+    | some (st, en) =>
+      if fwd && curr == lastLineNumber s.gs then
+        (fun ce =>
+          if ce > st then
+            (if hasVerb && ce - 1 == s.cur then MK.inclusive (ce - 1) (ce - 1) else MK.onto (ce - 1))
+          else MK.on st)
+        (if en > st && s.isNlAt (en - 1) then en - 1 else en)
+      else .on st
+
+end Vicut
